@@ -742,6 +742,18 @@ func (x *Exec) intrinsic(f *frame, ins ssa.Instruction, fn *ssa.Function, name s
 			return app, true
 		}
 		return u.App("hash_2", 64, args[0].(*Term), args[1].(*Term)), true
+	case "VxHashPtr":
+		// pointer identity: nil -> 0, harness cell i -> i+1 (matches the native side)
+		p := asPtr(args[0])
+		var id *Term = u.Const(64, 0)
+		for i := len(p.Alts) - 1; i >= 0; i-- {
+			idx := uint64(0)
+			if o, ok := x.ObjOf(p.Alts[i].Addr); ok {
+				idx = uint64(p.Alts[i].Addr-o.Base) + 1
+			}
+			id = u.Ite(p.Alts[i].G, u.Const(64, idx), id)
+		}
+		return u.App("hash_2", 64, id, args[1].(*Term)), true
 	case "VxHashStr":
 		s, seed := args[0].(*Term), args[1].(*Term)
 		return u.App("hashstr", 64, s, seed), true
